@@ -64,6 +64,7 @@ type unit struct {
 	inlined map[string]bool
 	kf      *knownFindings
 	ghostTypes map[string]types.Type
+	rawBoxed bool
 	returns int
 }
 
@@ -105,6 +106,7 @@ type state struct {
 	dead    bool
 	curLoopPre *state
 	cands   []binder
+	deferArgs map[*ssa.Defer][]Val
 }
 
 type loopCtx struct {
@@ -221,6 +223,10 @@ func (s *state) leafFact(l leaf, x string) string {
 	case strings.HasSuffix(l.path, ".ref") || strings.HasSuffix(l.path, ".box"):
 		if _, ok := intLit(x); ok {
 			return ""
+		}
+		if s.u.nextRef > 0 {
+			// a reference is either pre-existing (>= 0) or one of the objects allocated so far on this path
+			return fmt.Sprintf("(or (>= %s 0) (and (<= %s (- 10)) (>= %s (- %d))))", x, x, x, 9+s.u.nextRef)
 		}
 		return fmt.Sprintf("(>= %s 0)", x)
 	case strings.HasSuffix(l.path, ".len") || strings.HasSuffix(l.path, ".cap"):
@@ -490,7 +496,11 @@ func (s *state) storeAt(t types.Type, ref, off string, fld *fieldRef, v Val) {
 	}
 	for i, l := range m.leaves(t) {
 		if strings.HasSuffix(l.path, ".ref") && isRawRef(v.S[i]) && !s.u.eng.rawFieldOK(name) {
-			panic(engineErr("raw pointer stored into typed heap " + name + " (declare `rawfield`)"))
+			if strings.HasPrefix(name, "B_") {
+				s.u.rawBoxed = true // boxed into an interface: must not be unboxed in this unit
+			} else {
+				panic(engineErr("raw pointer stored into typed heap " + name + " (declare `rawfield`)"))
+			}
 		}
 		s.wr(name+l.path, l.sort, ref, off, v.S[i])
 	}
